@@ -15,7 +15,8 @@ from sx import Sym
 RULE = ("exhaustive: all 2^n presence masks for n<=10 (quick) / n<=12 (thorough) for each of the four run-length-coded track kinds "
         "(3D marker, EMG, force/torque, platform data), as single track and inside 3-track blocks; seeded masks up to 5000 frames; "
         "segment tables parsed from the real bytes by an independent struct parser; each block decoded twice with the allocator "
-        "dirtied by same-sized non-NaN arrays. non-trivial = mask with >=1 gap and >=1 present frame; distinct by (kind, mask)")
+        "dirtied by same-sized non-NaN arrays; plus in-place transitions: one track object, already printed/sized/encoded with mask m1, "
+        "edited through its arrays to mask m2 and written again - every ordered pair (m1, m2) for n<=4 (thorough 5), seeded pairs up to 1100 frames. non-trivial = mask with >=1 gap and >=1 present frame; distinct by (kind, mask)")
 ASSUMPTIONS = ["uninitialised memory cannot be exhibited by the Lean model; that half is exploration of the real decoder (dirty-heap double decode)"]
 KINDS = ["data3d", "emg", "force3d", "platdata"]
 
@@ -85,12 +86,31 @@ def raw_tracks(kind, blk):
     return [np.concatenate([np.asarray(p.application_point), np.asarray(p.force), np.asarray(p.torque).reshape(-1, 1)], axis=1) for _, p in blk]
 
 
-def check_case(ctx, kind, v, frames_list, model_tbls):
+def morph(kind, obj, frames_list):
+    """edits the tracks of an existing block IN PLACE (through the public array attributes) until they hold frames_list"""
+    items = [it for it, _ in B.items_of(kind, obj)]
+    for it, frames in zip(items, frames_list):
+        for i, f in enumerate(frames):
+            col = 0
+            for attr in B.TRACK_ARRAYS[kind]:
+                arr = getattr(it, attr)
+                w = 1 if arr.ndim == 1 else arr.shape[1]
+                if f is None:
+                    B._w(it, attr, i, np.nan)
+                else:
+                    vals = A.f32(f[col:col + w])
+                    B._w(it, attr, i, vals[0] if arr.ndim == 1 else vals)
+                col += w
+
+
+def check_case(ctx, kind, v, frames_list, model_tbls, obj=None, came_from=None):
     rep = dict(kind=kind, masks=["".join("1" if f is not None else "0" for f in fr) for fr in frames_list], v=v if len(repr(v)) < 3000 else None)
+    if came_from:
+        rep["edited_in_place_from_masks"] = came_from
     n = len(frames_list[0])
     k = A.NCOMP[kind]
     try:
-        obj = A.build(kind, v)
+        obj = A.build(kind, v) if obj is None else obj
         enc = A.encode(obj)
         tbls = parse_tables(kind, enc, len(frames_list))
     except Exception as e:
@@ -146,6 +166,40 @@ def run(ctx):
         kind = rng.choice(KINDS)
         n = rng.choice([13, 16, 31, 64, 100, 257, 1000, 5000] if rng.random() < 0.5 else [rng.randrange(9, 40)])
         jobs.append((kind, [A.gen_frames(rng, A.NCOMP[kind], n) for _ in range(rng.choice([1, 1, 3]))]))
+    # the same OBJECT taken from one mask to another by in-place edits after it has been printed, sized and encoded once:
+    # every ordered pair of masks for n <= 4 (thorough: 5), seeded pairs for longer tracks
+    trans = []
+    for kind in KINDS:
+        k = A.NCOMP[kind]
+        for n in range(1, (5 if ctx.thorough else 4) + 1):
+            for b1 in itertools.product([False, True], repeat=n):
+                for b2 in itertools.product([False, True], repeat=n):
+                    if b1 != b2:
+                        trans.append((kind, [A.gen_frames(rng, k, n, mask=list(b1))], [A.gen_frames(rng, k, n, mask=list(b2))]))
+    for _ in range(ctx.n(150, 3000)):
+        kind = rng.choice(KINDS)
+        n = rng.choice([6, 9, 17, 40, 130, 1100])
+        nt = rng.choice([1, 2])
+        trans.append((kind, [A.gen_frames(rng, A.NCOMP[kind], n) for _ in range(nt)], [A.gen_frames(rng, A.NCOMP[kind], n) for _ in range(nt)]))
+    tcmds = [[Sym("rle.runs"), [Sym("none") if f is None else f for f in fr]] for _, _, fl2 in trans for fr in fl2]
+    treplies = common.drv_batch(tcmds)
+    tpos = 0
+    for kind, fl1, fl2 in trans:
+        mt = treplies[tpos:tpos + len(fl2)]
+        tpos += len(fl2)
+        v1 = block_with_tracks(kind, rng, fl1)
+        masks1 = ["".join("1" if f is not None else "0" for f in fr) for fr in fl1]
+        ctx.case((kind, "transition", tuple(masks1), tuple(tuple(f is not None for f in fr) for fr in fl2)), nontrivial=True,
+                 tags=(kind, "in-place-transition", "n<=4" if len(fl1[0]) <= 4 else "n-large"))
+        try:
+            obj = A.build(kind, v1)
+            repr(obj), [repr(it) for it, _ in B.items_of(kind, obj)], int(obj.nBytes), A.encode(obj)
+            morph(kind, obj, fl2)
+        except Exception as e:
+            ctx.fail(f"{kind}: building/editing a valid block raised {type(e).__name__}: {e}", dict(kind=kind, masks=masks1), ident=f"{kind} edit raises")
+            continue
+        v2 = A.norm(A.absv(kind, obj))
+        check_case(ctx, kind, v2, fl2, mt, obj=obj, came_from=masks1)
     cmds = []
     for kind, fl in jobs:
         for fr in fl:
